@@ -52,7 +52,8 @@ REQUIRED_PROBES = {"quick": ["lookup_served_from_cache", "definition_after_first
                              "provider_known_id_redefined", "restart_between_definition_and_use",
                              "value_matches_own_definition", "convert_zoneinfo", "convert_pytz",
                              "reparse_of_serialisation", "interleaved_clients", "until_rule", "count_rule",
-                             "rdate_observance", "two_eras", "no_tzname", "slash_prefixed_id", "parsed_with_multiple"]}
+                             "rdate_observance", "two_eras", "no_tzname", "slash_prefixed_id", "parsed_with_multiple",
+                             "utc_instant_family"]}
 REQUIRED_PROBES["thorough"] = REQUIRED_PROBES["quick"]
 
 ID_POOL = ["Sim/A", "Sim/B", "/Sim/A", "Europe/Berlin", "W. Europe Standard Time", "Sïm/Ü", "Sim/B/"]
@@ -470,6 +471,8 @@ def _probe_shape(res, entry):
         res.probe("rdate_observance")
     if meta.get("shape") == "two-eras":
         res.probe("two_eras")
+    if meta.get("family"):
+        res.probe("utc_instant_family")
     if any(ob.get("name") is None for ob in d["obs"]):
         res.probe("no_tzname")
     if d["tzid"].startswith("/"):
